@@ -28,3 +28,12 @@ ENTRY = {
         "pre-merge (phase0/altair) proposals have no Slot accessor in the pinned go-eth2-client fork: their aggregate is never published (accessor error)",
     ],
 }
+
+# "verifies ... for the object's own signing root, domain and epoch": the signing input (eth2util/signing GetDomain /
+# GetDataRoot, an anchor of C09) is modelled bit-exactly in Model/Signing.lean (Props/C10Signing.lean, stream signing)
+from vlib import snippet_C10signing as _sg
+ENTRY["streams"] = ENTRY["streams"] + [dict(_sg.STREAM, seeds_quick=1)]
+ENTRY.setdefault("lean_props_extra", []).append(_sg.EXTRA_LEAN)
+ENTRY["monitor_sigs"] = list(ENTRY.get("monitor_sigs") or ["sigagg:"]) + _sg.MONITOR_SIGS
+ENTRY["trusted_base"] = ENTRY["trusted_base"] + _sg.TRUSTED_BASE
+ENTRY["assumptions"] = ENTRY["assumptions"] + _sg.ASSUMPTIONS
